@@ -46,7 +46,7 @@ PROPS["C17"] = {
     "level": "exploration",
     "design_ref": "DESIGN.md §3 C17",
     "technique": "small-scope exhaustive execution of the real primitive against a specification model; randomized long sequences; multi-threaded stress with an offline interval checker; ThreadSanitizer; Miri",
-    "text": "The real timeout_coord primitive (both in-tree constructors, 2 and 3 voters) is executed on every sequence of vote / rescind / drop / poll up to depth 8 / 6 (10 / 7 thorough), on 200 k - 5 M random 40-call sequences and on 20 k - 400 k multi-threaded runs. Every answer is compared with a model derived from the statement: unanimity is claimed only when every party holds a vote or is gone at the same moment; it is never denied afterwards; a pending waker fires on the latching call; a parked waiter always terminates (decided logically, not by timeout). Findings are classified by whether in-tree callers can produce the sequence. Runtime level (engine rawagent, part raw-inactivity): 20 000 / 1 M conversations with the real agent runtime under a 6-25 ms (virtual) inactivity timeout, idle gaps just below, at and above it, nothing stalled: the runtime never stops less than one timeout after a lane event or a delivered command (exact under the paused clock; work in the very instant of the stop is ambiguous and skipped), and it does stop once every party has been idle for five timeouts. The same two rules for the downlink runtime (engine dlrt, parts inactivity-directed / inactivity-value / inactivity-map: 122 000 / 3 M come-and-go conversations with empty_timeout 20 / 60 ms, consumers arriving just before, at and after the lone vote of one task, a final idle period of five timeouts): no inactivity stop while a served consumer is attached or less than one timeout after a consumer attached or left, and the runtime has returned by itself by the end of the final idle period.",
+    "text": "The real timeout_coord primitive (both in-tree constructors, 2 and 3 voters) is executed on every sequence of vote / rescind / drop / poll up to depth 8 / 6 (10 / 7 thorough), on 200 k - 5 M random 40-call sequences and on 20 k - 400 k multi-threaded runs. Every answer is compared with a model derived from the statement: unanimity is claimed only when every party holds a vote or is gone at the same moment; it is never denied afterwards; a pending waker fires on the latching call; a parked waiter always terminates (decided logically, not by timeout). Findings are classified by whether in-tree callers can produce the sequence. Runtime level (engine rawagent, part raw-inactivity): 20 000 / 1 M conversations with the real agent runtime under a 6-25 ms (virtual) inactivity timeout, idle gaps just below, at and above it, nothing stalled: the runtime never stops less than one timeout after a lane event or a delivered command (exact under the paused clock; work in the very instant of the stop is ambiguous and skipped), and it does stop once every party has been idle for five timeouts. The same two rules for the downlink runtime (engine dlrt, parts inactivity-directed / inactivity-value / inactivity-map: 122 000 / 3 M come-and-go conversations with empty_timeout 20 / 60 ms, consumers arriving just before, at and after the lone vote of one task, a final idle period of five timeouts): no inactivity stop while a served consumer is attached or less than one timeout after a consumer attached or left, and the runtime has returned by itself by the end of the final idle period. dlrt part inactivity-extras-directed: the downlink read task learns of its last consumers' departure while feeding them an event, and bad frames arrive around the votes; the two inactivity rules hold. The read task's rescind == Unanimous arm is unreachable by the runtime's polling order (a probe never fired).",
     "note": "Trusted base: the 60-line reference model and caller-discipline classifier in engines/vote/src/model.rs and the interval argument of the threaded checker (a call linearises inside its ticket interval). Exhaustive only up to the depth bound; concurrency is sampled (25% of threaded runs draw no tickets so that the SeqCst ticket clock does not mask weak-memory behaviour).",
     "runs": [{"engine": "vote"}, {"engine": "rawagent"}, {"engine": "dlrt"}],
     "sanitizers": [
@@ -121,8 +121,8 @@ PROPS["C06"] = {
     "level": "exploration",
     "design_ref": "DESIGN.md §3 C06",
     "technique": "runtime monitoring with a differential oracle: generated handler programs interpreted into real boxed EventHandlers on a derived agent under the real runtime vs a reference interpreter of the documented semantics",
-    "text": "100 000 (quick) / 3 000 000 (thorough) generated handler programs over the documented combinators (set/update/remove/clear/get/effect/and_then/followed_by/suspend/fail/stop/command) are interpreted into real EventHandlers on a derived agent (3 value lanes, 2 map lanes, value store, map store, 2 command lanes) run by the real AgentRouteTask/AgentModel loop under remote command and sync frames, harness-completed suspended futures and poll jitter. The full execution trace (handler entries with arguments and previous values, reads, writes) and all final item states must equal those of a reference interpreter of docs/event_handler.md + lifecycle.md: depth-first, on_event then on_set, true previous entry, on_start first, on_stop last, each change triggers once, nothing of a handler or of the handlers it interrupted after a failure. Across restarts (engine agent, part persist-and-restart: 3 000 / 100 000 conversations, each restarted at cut points of its store log): the first on_set / on_update after a restart is told the restored state - what a syncing remote has just been shown - as the previous value.",
-    "note": "Trusted base: the ~330-line reference interpreter and the program-to-handler interpretation; logging only through context.effect / map closures. Acyclic programs only; cascades up to depth 8. Whether the agent task as a whole fails after a handler failure is *not* part of the statement: the runtime swallows a failure of a handler started by a remote command (logged as a rejected frame) and that is counted as an observation (--lenient-external-fail), not a violation.",
+    "text": "100 000 (quick) / 3 000 000 (thorough) generated handler programs over the documented combinators (set/update/remove/clear/get/effect/and_then/followed_by/suspend/fail/stop/command) are interpreted into real EventHandlers on a derived agent (3 value lanes, 2 map lanes, value store, map store, 2 command lanes) run by the real AgentRouteTask/AgentModel loop under remote command and sync frames, harness-completed suspended futures and poll jitter. The full execution trace (handler entries with arguments and previous values, reads, writes) and all final item states must equal those of a reference interpreter of docs/event_handler.md + lifecycle.md: depth-first, on_event then on_set, true previous entry, on_start first, on_stop last, each change triggers once, nothing of a handler or of the handlers it interrupted after a failure. Across restarts (engine agent, part persist-and-restart: 3 000 / 100 000 conversations, each restarted at cut points of its store log): the first on_set / on_update after a restart is told the restored state - what a syncing remote has just been shown - as the previous value. In 3 of 10 programs the trees also use and_then_contextual (its function reads an item from the agent it is handed), and_then_try (failing functions), join/join3, Option<H>, SideEffects, Sequentially (incl. a failing element), get_parameter/with_parameters/get_agent_uri (agent started under route parameters), schedule_timer_event with on_timer trees (paused clock advanced 2 ms per quiescence; on_timer(id) must run as a handler of its own at its deadline, never inside the scheduling handler, never after stop), cue on a demand lane and sync requests to it (on_cue nested like any lane handler), cue_key on a demand-map lane (reaches the handler that runs after a completed write) and open_value_lane in on_start (on_done handler after on_start, in request order, before the first command). Two readings the documentation leaves open are tolerated and counted: the function of and_then_contextual/and_then_try being applied before the handlers of the first action's last change, and on_cue_key of a second key being deferred until the earlier value is written.",
+    "note": "Trusted base: the ~330-line reference interpreter and the program-to-handler interpretation; logging only through context.effect / map closures. Acyclic programs only; cascades up to depth 8. Whether the agent task as a whole fails after a handler failure is *not* part of the statement: the runtime swallows a failure of a handler started by a remote command (logged as a rejected frame) and that is counted as an observation (--lenient-external-fail), not a violation. Timer ties are regenerated or inconclusive; programs with cue_key or delay-0 timers send inputs one at a time.",
     "runs": [{"engine": "handlers", "args": ["--lenient-external-fail", "1"]}, {"engine": "agent"}],
     "assumptions": ["one remote; order between frames to different lanes is only checked at quiescence", "a set to the same value and a clear of an empty map are accepted with or without triggering"],
 }
@@ -143,10 +143,10 @@ PROPS["C14"] = {
     "level": "exploration",
     "design_ref": "DESIGN.md §3 C14",
     "technique": "runtime monitoring: exactly-once / in-order / no-loss oracles over unique items between producer-side records (handler pushes, send calls, envelopes sent) and consumer-side frames",
-    "text": "Real runtime + derived agent: a command lane handler pushes bursts of unique items (up to 900 at once) to a supply lane while remotes read slowly, stall, link and unlink: per remote no duplicate, push order, and every item pushed by a command requested after the remote's stable link began is present. Every command envelope sent to the command lane invokes its handler exactly once, per remote in send order. Handlers send commands to three targets (two lanes behind one remote host sharing a channel, one local) with send_command, Commander::send (overwritable) and send_queued; the harness serves LinkRequest::Commander with slow/stalled readers: per target nothing arrives twice or at the wrong target, order per sending path is kept, every send_queued command arrives, an overwritable one is missing only if a later command to the same target exists. The rawagent engine repeats supply bursts (2000 items) and command delivery with harness lanes that see the command frames directly.",
+    "text": "Real runtime + derived agent: a command lane handler pushes bursts of unique items (up to 900 at once) to a supply lane while remotes read slowly, stall, link and unlink: per remote no duplicate, push order, and every item pushed by a command requested after the remote's stable link began is present. Every command envelope sent to the command lane invokes its handler exactly once, per remote in send order. Handlers send commands to three targets (two lanes behind one remote host sharing a channel, one local) with send_command, Commander::send (overwritable) and send_queued; the harness serves LinkRequest::Commander with slow/stalled readers: per target nothing arrives twice or at the wrong target, order per sending path is kept, every send_queued command arrives, an overwritable one is missing only if a later command to the same target exists. The rawagent engine repeats supply bursts (2000 items) and command delivery with harness lanes that see the command frames directly. A further part (agent-command-fault-conversations) makes the command channels themselves fail: five targets behind four channels (two remote hosts, two local lanes), of which one or two misbehave per case. The harness's LinkRequest::Commander server answers an open request with a fatal error, with transient errors within and beyond the configured retry budget (none, immediate, delayed), or drops it. Readers of open channels are closed, also under a queued send_queued burst behind a stalled target. Targets are left idle beyond the channel time-out on the paused clock and then used again. Over all channels ever opened for an endpoint, taken in open order, nothing arrives twice, at the wrong endpoint or channel, altered, or out of send order. Every command sent to an endpoint whose channel never failed must arrive; retries within the budget and idle time-out plus re-open do not count as failures, and this includes the command that triggers the re-open. Every command sent after the runtime had certainly noticed an endpoint's last failure must arrive too. Endpoints that never failed are judged in full whatever happened to the others. Commands lost together with a failed channel are counted, not reported.",
     "note": _AGENT_NOTE,
     "runs": [{"engine": "agent"}, {"engine": "rawagent"}],
-    "assumptions": ["items and command values are unique", "completeness is only demanded at exact quiescence with all readers released"],
+    "assumptions": ["a retry strategy with n retries means the first request plus n more (as the unit test route_single_command_repeated_errors asserts)", "a command-channel failure is taken as noticed at the harness's next exact quiescent point (for a closed reader: after the next command for that endpoint)", "items and command values are unique", "completeness is only demanded at exact quiescence with all readers released"],
 }
 
 PROPS["C20"] = {
@@ -169,8 +169,8 @@ PROPS["C07"] = {
     "level": "exploration",
     "design_ref": "DESIGN.md §3 C07",
     "technique": "runtime monitoring of the real Value/MapDownlinkRuntime between a simulated lane and 1-4 consumers: session-order, snapshot-window, contiguity and command-order oracles; exhaustive join-phase grid + seeded conversations",
-    "text": "Real Value/MapDownlinkRuntime between a harness lane model and 1-4 consumers attaching at any phase with all SYNC/KEEP_LINKED combinations over 4-4096-byte channels, with stalls, drops and a slow socket. Per consumer: session order linked (event)* [synced] (event)* unlinked, synced iff requested, state at synced within [attach, receipt], events contiguous and complete once owed, unlinked at close. On the socket: per-consumer command order (value at all, map per key and across clears), only superseded commands dropped, final state equals all commands. 640-case exhaustive join grid plus 200k random conversations per quick run; 4M thorough.",
-    "note": "Trusted base: the harness lane model (sequential; answers one sync request with one snapshot and one synced; sends events only after the link request), the harness decoders, a 1 ms sleep under a paused clock as quiescence test. tokio::select! choice inside the read task is sampled, not enumerated.",
+    "text": "Real Value/MapDownlinkRuntime between a harness lane model and 1-4 consumers attaching at any phase with all SYNC/KEEP_LINKED combinations over 4-4096-byte channels, with stalls, drops and a slow socket. Per consumer: session order linked (event)* [synced] (event)* unlinked, synced iff requested, state at synced within [attach, receipt], events contiguous and complete once owed, unlinked at close. On the socket: per-consumer command order (value at all, map per key and across clears), only superseded commands dropped, final state equals all commands. 640-case exhaustive join grid plus 200k random conversations per quick run; 4M thorough. Frames no lane emits (parts badframe-directed / badframe-map / badframe-value: 19 000 / 500 000 conversations): an event whose body is not a map message reaches the map runtime under each in-tree BadFrameStrategy (always-abort, report(always-abort), boxed, always-ignore, boxed report(always-ignore)) at every point of a session; with an aborting strategy the runtime terminates and every served consumer is told unlinked with nothing after it; with an ignoring one nobody is unlinked and each consumer still receives exactly the well-formed events, in order, with consistent synced states; in no case does a consumer receive an event the lane did not send (this found an ignoring strategy forwarding an empty event: repaired). Undecodable or truncated envelopes: the runtime stopped and unlinked everybody in all runs (counted, not demanded). Parts feed-failure-*: with 3-4 consumers, one that stops listening is discovered while an event is being fed (8 KiB of unflushed 3 KB events arriving back to back) and removed by index; every other consumer gets every later event in order, and the runtime never closes a served consumer's channel without unlinked while it keeps running.",
+    "note": "Trusted base: the harness lane model (sequential; answers one sync request with one snapshot and one synced; sends events only after the link request), the harness decoders, a 1 ms sleep under a paused clock as quiescence test. tokio::select! choice inside the read task is sampled, not enumerated. The abort and ignore rules rest on the documented contract in downlink/failure.rs (continue, ignoring the bad envelope / abort); the bad bodies used are unambiguously outside the five WARP map-message forms.",
     "runs": [{"engine": "dlrt"}],
     "assumptions": ["well-behaved remote lane", "disjoint keys per consumer on map lanes", "single-threaded cooperative scheduling"],
 }
